@@ -45,7 +45,7 @@ def story_item_parts(tier, mon, *, timing_variants=True, small=False, mixed=True
             {'label': 'items-pool4-cap3-L2' if small else 'items-pool5-cap4-L2',
              'harness': HItem(pool=4 if small else 5, cap=3 if small else 4, max_list=2, patterns=('plain',), positions=('second',)), 'monitors': mon},
             {'label': 'items-interleaved-pool4-cap3-L2',
-             'harness': HItem(pool=4, cap=3, max_list=2, patterns=('p-between',), positions=('first',)), 'monitors': mon},
+             'harness': HItem(pool=4, cap=3, max_list=2, patterns=('p-between',), positions=('last',)), 'monitors': mon},
         ]
         # lists of three IDs / carried elements on a small pool (a fault that needs a third element)
         parts.append({'label': 'stories-pool4-cap3-L3', 'harness': HStory(pool=4, cap=3, max_list=3, layouts=('before',), packings=('one',)),
